@@ -59,6 +59,8 @@ var commonAssumptions = []string{
 
 func allProps() []*Prop {
 	return []*Prop{
+		propC07(),
+		propC08(),
 		propC09(),
 	}
 }
@@ -84,6 +86,9 @@ func propC09() *Prop {
 			}
 			js = append(js, job("C09e/isolation[k=2,any refill]", "ratelimiter", "VerifC09Isolation", 2, 0))
 			js = append(js, job(fmt.Sprintf("C09e/isolation[k=%d,refill 1s|3s]", tierPick(tier, 3, 4)), "ratelimiter", "VerifC09Isolation", tierPick(tier, 3, 4), 1))
+			if tier == "thorough" {
+				js = append(js, job("C09e/isolation[k=3,any refill]", "ratelimiter", "VerifC09Isolation", 3, 0))
+			}
 			js = append(js, job("C09h/cleanup", "ratelimiter", "VerifC09Cleanup"))
 			for _, j := range js {
 				arith(j)
@@ -97,3 +102,46 @@ func propC09() *Prop {
 }
 
 var _ = fmt.Sprintf
+
+func propC07() *Prop {
+	return &Prop{
+		ID: "C07", Title: "Circuit breaker safety: trip, block while open, bounded half-open trials",
+		Jobs: func(tier string) []*sym.Job {
+			var js []*sym.Job
+			js = append(js, job("C07a/init", "circuitbreaker", "VerifC07Init"))
+			js = append(js, job("C07a/inductive-step[thresholds<=3]", "circuitbreaker", "VerifC07Step", 3))
+			js = append(js, job("C07a/inductive-step[thresholds<=2^30]", "circuitbreaker", "VerifC07Step", 1<<30))
+			for k := int64(4); k <= tierPick(tier, 4, 6); k++ {
+				js = append(js, job(fmt.Sprintf("C07a/histories[k=%d]", k), "circuitbreaker", "VerifC07Seq", k))
+			}
+			js = append(js, neg(job("C07a/negative-twin", "circuitbreaker", "VerifC07NegStep")))
+			return js
+		},
+		Assumptions: commonAssumptions,
+		Bounds: map[string]string{
+			"quick":    "sequential: constructor + one inductive step from any invariant state (thresholds up to 2^30, any interval/timeout in 1ns..2^40ns, any elapsed time) = histories of any length; plus explicit histories of <= 4 events over {ok, error, panic, time passes}, thresholds 1..3",
+			"thorough": "same, explicit histories <= 6 events",
+		},
+		Outside: []string{"durations above 2^40 ns", "time advancing inside one Execute call"},
+	}
+}
+
+func propC08() *Prop {
+	return &Prop{
+		ID: "C08", Title: "Circuit breaker liveness: never locks traffic out forever, never blocks",
+		Jobs: func(tier string) []*sym.Job {
+			var js []*sym.Job
+			js = append(js, job("C08a/recovery-from-any-invariant-state", "circuitbreaker", "VerifC08Step"))
+			for k := int64(2); k <= tierPick(tier, 3, 5); k++ {
+				js = append(js, job(fmt.Sprintf("C08a/recovery-after-history[k=%d]", k), "circuitbreaker", "VerifC08Recovery", k))
+			}
+			return js
+		},
+		Assumptions: commonAssumptions,
+		Bounds: map[string]string{
+			"quick":    "thresholds 1..3, recovery script from any invariant state and after every history of <= 3 events",
+			"thorough": "same, histories <= 5 events",
+		},
+		Outside: []string{"thresholds above 3 in the recovery script (loop bound)"},
+	}
+}
